@@ -1011,6 +1011,15 @@ class UrlDispatcher(AbstractRouter, Mapping[str, AbstractResource]):
             for candidate in resource_index.get(url_part, ()):
                 match_dict, allowed = await candidate.resolve(request)
                 if match_dict is not None:
+                    if allowed_methods and match_dict.http_exception is not None:
+                        # A sub-application that has no handler for the request
+                        # either: the resources that matched the path before
+                        # it was asked still make this a 405, with their methods.
+                        return MatchInfoError(
+                            HTTPMethodNotAllowed(
+                                request.method, allowed_methods | allowed
+                            )
+                        )
                     return match_dict
                 else:
                     allowed_methods |= allowed
